@@ -163,6 +163,38 @@ def run(job):
         if r[0] != 'ok' or r[1] != [noisy, data]:
             t.violation('C17.scan', 'info-only stream scan does not cut messages at their declared total length (%r)' % (
                 r[1] if r[0] != 'ok' else [len(x) for x in r[1]],), {'stream': stream.hex()}, key='C17.scan')
+    # D: ONE querent across messages whose first holder of a name differs (optional section 2 present / absent, distinguishable values), both
+    # orders: the answer on each message is the first match over THAT message's sections, whatever was asked before
+    import copy
+    for ed in (2, 3, 4):
+        base = G.gen_message(rng, edition=ed, compressed=False, sec2='1011')
+        with2 = copy.deepcopy(base['json'])
+        with2[2][1] = '10100101'                      # reserved_bits of section 2, different from section 3's
+        with2[3][1] = '00001111'
+        without = copy.deepcopy(base['json'])
+        del without[2]
+        without[1][5 if ed != 2 else 4] = False
+        without[2][1] = '11110000'
+        pair = []
+        for js in (with2, without):
+            data, _ = R.ref_encode(js)
+            pair.append(dec.process(data))
+        for order in ((0, 1), (1, 0), (0, 1, 0)):
+            q2 = MetadataQuerent(MetadataExprParser())
+            for step, which in enumerate(order):
+                msg = pair[which]
+                for name in names:
+                    expr = '%' + name
+                    exp = ref_query(msg, None, name)
+                    r = safe(q2.query, msg, expr)
+                    t.case('D.reuse', (ed, order, step, name), sample={'edition': ed, 'order': list(order), 'expr': expr})
+                    got = r[1] if r[0] == 'ok' else r[1]
+                    ok = r[0] == 'ok' and ((got is None) if exp[0] == 'none' else (got is exp[1] or got == exp[1]))
+                    if not ok:
+                        t.violation('C17.query', 'one querent across messages (section 2 %s after %s): %r returns %r, first match in this message is %r'
+                                    % ('present' if which == 0 else 'absent', 'a message where it is ' + ('present' if order[step - 1] == 0 else 'absent')
+                                       if step else 'nothing', expr, got, exp[1] if exp[0] == 'found' else None),
+                                    {'expr': expr, 'edition': ed, 'order': list(order)}, observed=repr(got), expected=repr(exp), key='C17.query.reuse')
     # a table-definition message (category 11, n_subsets > 0) with a damaged data section in an info-only scan
     from bounded.C20 import def_message, gen_defs
     for _ in range(3 if quick else 20):
